@@ -22,8 +22,11 @@ for mf in sorted(glob.glob(os.path.join(here, "seeded", "*", "meta.json")), key=
     mo = re.search(r"caught by the (C\d+) check", m["detection"])
     check = mo.group(1) if mo else prop
     patch = os.path.join(os.path.dirname(mf), "patch.diff")
-    subprocess.run(["git", "-C", repo, "checkout", "--", "."], check=True)
+    subprocess.run(["git", "-C", repo, "reset", "--hard", "-q"], check=True)
     a = subprocess.run(["git", "-C", repo, "apply", patch], capture_output=True, text=True)
+    if a.returncode != 0:
+        # the repository moved on (repairs): fall back to a 3-way merge of the patch
+        a = subprocess.run(["git", "-C", repo, "apply", "--3way", patch], capture_output=True, text=True)
     if a.returncode != 0:
         print(name, "APPLY-FAILED", a.stderr.strip()[:120]); bad.append(name); continue
     try:
@@ -33,6 +36,6 @@ for mf in sorted(glob.glob(os.path.join(here, "seeded", "*", "meta.json")), key=
         if r.returncode != 1:
             bad.append(name)
     finally:
-        subprocess.run(["git", "-C", repo, "checkout", "--", "."], check=True)
+        subprocess.run(["git", "-C", repo, "reset", "--hard", "-q"], check=True)
 print("SEEDS-NOT-DETECTED:", bad)
 sys.exit(1 if bad else 0)
